@@ -11,6 +11,7 @@ import math
 import random
 
 import torch
+from .core import sint
 
 from . import modem, tlc, tv
 
@@ -32,7 +33,7 @@ def received_points(s, hdr, rng, quick):
         n = 48 if quick else 360
         for i in range(n):
             a = 2 * math.pi * (i + 0.37) / n
-            out.append((int(round(S * math.cos(a))), int(round(S * math.sin(a)))))      # on the unit circle: the decision variable is normalised
+            out.append((sint(S * math.cos(a)), sint(S * math.sin(a))))      # on the unit circle: the decision variable is normalised
         return out
     g = 14 if quick else 40
     if one_d:
@@ -49,7 +50,7 @@ def received_points(s, hdr, rng, quick):
         pairs = rng.sample(pairs, 40 if quick else 400)
     for p, q in pairs:
         for f in (0.40, 0.60):
-            out.append((int(round(p[0] + f * (q[0] - p[0]))), int(round(p[1] + f * (q[1] - p[1])))))
+            out.append((sint(p[0] + f * (q[0] - p[0])), sint(p[1] + f * (q[1] - p[1]))))
     for _ in range(60 if quick else 600):
         out.append((rng.randint(bx0, bx1), rng.randint(by0, by1) if not one_d else rng.choice([0, 0, rng.randint(-3000, 3000)])))
     out = [(max(-lim, min(lim, x)), max(-lim, min(lim, y))) for x, y in out]
@@ -156,7 +157,7 @@ def run(run):
                         tid += 1
                         v = float(q[i, k])
                         v = max(-4.0e4, min(4.0e4, v)) if math.isfinite(v) else 0.0
-                        evs.append({"ev": "Soft", "tid": tid, "y": [x, yy], "k": k + 1, "q": int(round(v)), "sg": (1 if float(llr[i, k]) > 0 else (-1 if float(llr[i, k]) < 0 else 0)),
+                        evs.append({"ev": "Soft", "tid": tid, "y": [x, yy], "k": k + 1, "q": sint(v), "sg": (1 if float(llr[i, k]) > 0 else (-1 if float(llr[i, k]) < 0 else 0)),
                                     "C": C, "nv": str(nv)})
                         owner.append(s)
                         run.case((s.name, "soft", x, yy, str(nv), k), nontrivial=True)
